@@ -21,6 +21,7 @@ import (
 	"io"
 	"os"
 	"path/filepath"
+	"regexp"
 	"sort"
 	"strings"
 )
@@ -650,6 +651,13 @@ func main() {
 						fatalf("%s: %v", path, err)
 					}
 					changedByPrologue = true
+				}
+				if base == "sourcesink_linux.go" {
+					// the handle's platform flag (true only for the Windows raw-socket handle) becomes something the harness decides
+					if re := regexp.MustCompile(`MustClosePort:(\s*)false,`); re.Match(src) {
+						src = re.ReplaceAll(src, []byte("MustClosePort:${1}VerifMustClosePort,"))
+						changedByPrologue = true
+					}
 				}
 				if bytes.Contains(src, []byte("func NewAFPacketSource(")) {
 					src, err = injectPrologue(src, "NewAFPacketSource", "VerifNewSource")
